@@ -3,7 +3,12 @@
 patch=$1; shift
 git -C /repo apply "$patch" || { echo "patch does not apply to /repo"; exit 2; }
 for p in "$@"; do
-  echo "=== $p on seeded tree"; (cd /verif && ./check $p ${TIER:+--tier $TIER} 2>&1 | grep -E "VIOLATION|KNOWN|OK$|-> " | cut -c1-250 | head -8)
+  out=$(cd /verif && ./check $p ${TIER:+--tier $TIER} 2>&1)
+  total=$(echo "$out" | grep -c "^VIOLATION")
+  noinput=$(echo "$out" | grep "^VIOLATION" | grep -c "no-failing-input-found")
+  echo "=== $p on seeded tree: $total VIOLATION lines, $((total - noinput)) with a concrete failing input"
+  echo "$out" | grep -E "^VIOLATION" | grep -v "no-failing-input-found" | head -2
+  echo "$out" | tail -1
 done
 git -C /repo checkout -- .
 (cd /verif/harness && cargo build --release --offline 2>&1 | grep -E "^error" )
